@@ -30,8 +30,11 @@ class Capture(io.TextIOWrapper):
     def getvalue(self):
         self.flush()
         data = self.buffer.getvalue()
-        # whatever encoding the program switched the stream to: the bytes are read back the way a consumer of the pipe would read them, as UTF-8
-        return data.decode('utf-8', errors='surrogateescape')
+        # read back in the encoding the stream has at the end (a program may have switched it with reconfigure())
+        try:
+            return data.decode(self.encoding or 'utf-8', errors='surrogateescape')
+        except LookupError:
+            return data.decode('utf-8', errors='surrogateescape')
 
 
 class Run:
